@@ -663,6 +663,9 @@ class Body:
                                 p2 = p2[2:]
                             elif p2[:1] == ("@Pending",):
                                 continue
+                        elif w and w.endswith("::from_residual") and p2[:1] in (("@+",), ("@Ok",), ("@Some",)):
+                            # `?` on the failure side builds Err / None only: never the origin of a success payload
+                            continue
                         elif w and w.endswith("::branch"):
                             if p2[:2] == ("@Continue", "0"):
                                 p2 = ("@+", "0") + p2[2:]
